@@ -93,8 +93,10 @@ def postLookupFirst : Bool :=
 
 /-- commit takes the transaction out of the map before it replays anything -/
 def commitRemovesFirst : Bool :=
-  decide (commit_order.idx_swap_remove < commit_order.idx_on_incoming_transfer ∧
-          commit_order.idx_on_incoming_transfer < commit_order.idx_last_Accepted)
+  decide (commit_order.idx_swap_remove < commit_order.idx_deliver_incoming_transfer ∧
+          commit_order.idx_deliver_incoming_transfer < commit_order.idx_last_Accepted ∧
+          -- the replay hands the frames to their links without counting them as arriving again
+          commit_order.idx_on_incoming_transfer = 1000)
 
 /-- a dropped coordinator aborts the transactions it declared -/
 def dropAborts : Bool := decide (coordinator_drop_order.idx_drain < coordinator_drop_order.idx_AbortTransaction)
